@@ -36,10 +36,17 @@ logger = logging.getLogger(__name__)
 
 class InstructionCompiler:
     def __init__(
-        self, ufo: Font, otf: ttLib.TTFont, autoUseMyMetrics: bool = True
+        self,
+        ufo: Font,
+        otf: ttLib.TTFont,
+        autoUseMyMetrics: bool = True,
+        glyphSet=None,
     ) -> None:
         self.ufo = ufo
         self.otf = otf
+        # the (possibly pre-processed) glyphs the outlines were compiled from;
+        # used to match UFO components with the compiled ones
+        self.glyphSet = glyphSet
         if not autoUseMyMetrics:
             # If autoUseMyMetrics is False, replace the method with a no-op
             self.autoUseMyMetrics = lambda ttGlyph, glyphName: None
@@ -127,6 +134,10 @@ class InstructionCompiler:
         if ttdata is not None:
             self._compile_tt_glyph_program(glyph, ttGlyph, ttdata)
         if ttGlyph.isComposite():
+            # filters (e.g. flattenComponents) may have changed the components:
+            # take them from the glyph the outline was actually compiled from
+            if self.glyphSet is not None and name in self.glyphSet:
+                glyph = self.glyphSet[name]
             self._set_composite_flags(glyph, ttGlyph)
         else:
             self._set_simple_flags(glyph, ttGlyph)
